@@ -89,3 +89,26 @@ Example strict_refuted_release :
   let p := fun i => if Nat.eqb i 4 then ErrBefore else NoFault in
   o_outcome (stored_request true true p) = Upstream true.
 Proof. vm_compute. reflexivity. Qed.
+
+(* the store is down for a whole request: every operation of the request fails *)
+Lemma call_fails_faulty f : call_fails f = true -> faulty f = true.
+Proof. destruct f; simpl; auto; discriminate. Qed.
+
+Lemma outage_fails_closed p :
+  (forall k, call_fails (p k) = true) ->
+  (forall stale idp_ok, is_upstream (o_outcome (stored_request stale idp_ok p)) = false /\
+                        o_session_cookie_set (stored_request stale idp_ok p) = false) /\
+  o_outcome (callback_save p) = ErrorPage /\ o_session_cookie_set (callback_save p) = false /\
+  o_outcome (sign_out p) = ErrorPage /\
+  o_outcome (ready_probe p) = NotReady.
+Proof.
+  intro H. assert (Hf : forall k, faulty (p k) = true) by (intro k; apply call_fails_faulty, H).
+  repeat split.
+  - unfold stored_request, read_fails. rewrite (Hf 0%nat). unfold unauth_after. cbn [o_outcome].
+    destruct (call_fails (p (S (length [OGet])))); reflexivity.
+  - unfold stored_request, read_fails. rewrite (Hf 0%nat). reflexivity.
+  - unfold callback_save. rewrite (H 0%nat). reflexivity.
+  - unfold callback_save. rewrite (H 0%nat). reflexivity.
+  - unfold sign_out, read_fails. rewrite (Hf 0%nat), (H 2%nat). reflexivity.
+  - unfold ready_probe. cbn [o_outcome]. rewrite (Hf 0%nat). reflexivity.
+Qed.
